@@ -1,4 +1,5 @@
 mod common;
+mod c07;
 mod c06;
 mod c09;
 mod c17;
@@ -46,6 +47,8 @@ fn main() {
         "C09" => c09::run(&args),
         "C09child" => c09::child_run(&args.rest),
         "C06" => c06::run(&args),
+        "C07" => c07::run(&args),
+        "C07child" => c07::child_run(&args.rest),
         x => {
             eprintln!("unknown property {}", x);
             std::process::exit(2);
